@@ -756,3 +756,54 @@ func (c *Ctx) originCall(host *load.FuncInfo, e ast.Expr, depth int) (*ast.CallE
 	}
 	return call, host
 }
+
+// collectorOf: where the slice `arg` (an argument of a call in host) is put together. Either in host itself (arg is a
+// local variable filled by appends), or in a same-package filter function called for it (directly in the argument, or
+// assigned to the variable first): then the function is returned with its result variable and the expression, at the
+// call in host, that its source parameter is bound to.
+func (c *Ctx) collectorOf(host *load.FuncInfo, arg ast.Expr) (cfi *load.FuncInfo, res types.Object, src ast.Expr) {
+	info := host.Pkg.TypesInfo
+	e := ast.Unparen(arg)
+	if id, ok := e.(*ast.Ident); ok {
+		if d, isCall := ast.Unparen(defRHS(host, info, id)).(*ast.CallExpr); isCall {
+			if f := gf.StaticCallee(info, d); f != nil && c.P.FuncInfoOf(f) != nil {
+				e = d
+			}
+		}
+		if _, stillID := e.(*ast.Ident); stillID {
+			return host, info.ObjectOf(id), nil
+		}
+	}
+	call, ok := e.(*ast.CallExpr)
+	if !ok {
+		return nil, nil, nil
+	}
+	f := gf.StaticCallee(info, call)
+	if f == nil {
+		return nil, nil, nil
+	}
+	k, isFilter := gf.SubSequenceFuncs()[f.FullName()]
+	hfi := c.P.FuncInfoOf(f)
+	if !isFilter || hfi == nil || hfi.Pkg != host.Pkg {
+		return nil, nil, nil
+	}
+	if f.Type().(*types.Signature).Recv() != nil {
+		k--
+	}
+	if k < 0 || k >= len(call.Args) {
+		return nil, nil, nil
+	}
+	// the result variable: what the filter returns
+	hinfo := hfi.Pkg.TypesInfo
+	ownNodes(hfi.Decl.Body, func(n ast.Node) {
+		if ret, ok := n.(*ast.ReturnStmt); ok && len(ret.Results) == 1 {
+			if id, ok := ast.Unparen(ret.Results[0]).(*ast.Ident); ok && !isNilExpr(hinfo, id) {
+				res = hinfo.ObjectOf(id)
+			}
+		}
+	})
+	if res == nil {
+		return nil, nil, nil
+	}
+	return hfi, res, call.Args[k]
+}
